@@ -62,48 +62,164 @@ fn payload_eq(l: &PubLog, part: usize, off: usize, src: &[u8; 96], len: usize) -
     ok
 }
 
-/// Both publishers append unfragmented messages into the same term; B's complete offer runs before A's j-th access.
+/// Scenario: log at (count 1, tail $tail); A offers $la bytes, B offers $lb bytes (then optionally $lb2) and B's
+/// COMPLETE offers run just before A's access number $j (0 = before A reads the limit, 1 = before the term count read,
+/// 2 = before the tail read, 3 = before A's fetch-add, 4 = right after it / before A's header store, 5.. = header fields,
+/// payload copy, reserved value, commit). j is concrete per instance (a symbolic j multiplies the cost of B's offer by
+/// the number of access points and did not finish in 25 minutes); payloads and ids are symbolic.
+macro_rules! preempt {
+    ($name:ident, $tail:expr, $la:expr, $lb:expr, $lb2:expr, $j:expr) => {
+        #[kani::proof]
+        fn $name() {
+            let tail: i32 = $tail;
+            let mut l = PubLog::new(1, tail);
+            l.set_limit(i64::MAX);
+            l.set_connected(1);
+            let pa = l.publication();
+            let pb = l.publication();
+            let mut src_a: [u8; 96] = kani::any();
+            let mut src_b: [u8; 96] = kani::any();
+            let (la, lb, lb2): (i32, i32, i32) = ($la, $lb, $lb2);
+            unsafe {
+                B.publication = &pb;
+                B.src = src_b.as_mut_ptr();
+                B.len1 = lb;
+                B.len2 = lb2;
+                B.res1 = -9;
+                B.res2 = -9;
+                B.ran = 0;
+            }
+            hook::begin(u32::MAX, $j, Some(env_b), false);
+            let ra = code(pa.offer_opt(AtomicBuffer::new(src_a.as_mut_ptr(), 96), 0, la, default_reserved_value_supplier));
+            let n = hook::end();
+            assert!(unsafe { B.ran } == 1, "C02: harness: the preemption point lies inside A's offer");
+            let (rb, rb2) = unsafe { (B.res1, B.res2) };
+            let part = l.partition(); // 1
+            let next = (part + 1) % 3;
+            let t = l.term_id();
+            let (need_a, need_b) = (align32(32 + la as i64) as i32, align32(32 + lb as i64) as i32);
+            let fits_both = tail + need_a + need_b <= TL as i32;
+            if fits_both {
+                // both accepted, positions distinct and equal to their frame ends; frames disjoint, intact, gap-free
+                assert!(ra > 0 && rb > 0 && ra != rb, "C02: both offers accepted with distinct positions");
+                let a_first = ra < rb;
+                let off_a = if a_first { tail } else { tail + need_b };
+                let off_b = if a_first { tail + need_a } else { tail };
+                assert!(ra == TL as i64 + (off_a + need_a) as i64 && rb == TL as i64 + (off_b + need_b) as i64, "C02: returned positions are consistent with frame placement");
+                assert!(frame_len(&l, part, off_a as usize) == 32 + la && frame_len(&l, part, off_b as usize) == 32 + lb, "C02: each message occupies its own committed frame");
+                assert!(payload_eq(&l, part, off_a as usize, &src_a, la as usize) && payload_eq(&l, part, off_b as usize, &src_b, lb as usize), "C02: both payloads intact, no overlap");
+                assert!(l.raw_tail_of(part) == pack_tail(t, tail + need_a + need_b), "C02: the tail covers exactly both frames (gap-free)");
+                assert!(l.active_count() == 1, "C02: no rotation while the term has room");
+                kani::cover!(a_first, "A frame placed first");
+                kani::cover!(!a_first, "B frame placed first");
+            } else {
+                // the term end is tripped by at least one of them: exactly one padding frame, exactly one rotation,
+                // nobody silently dropped or duplicated: each offer is either placed (position = its frame end) or told to retry
+                assert!(ra > 0 || ra == -1, "C02: A is accepted or told to retry (AdminAction), nothing else");
+                assert!(rb > 0 || rb == -1, "C02: B is accepted or told to retry (AdminAction), nothing else");
+                assert!(l.active_count() == 2, "C02: the log rotates exactly once for the filled term");
+                // find where the padding starts: the first claim that did not fit
+                let pad_at = if tail + need_a > TL as i32 && tail + need_b > TL as i32 {
+                    tail
+                } else if ra > 0 && ra <= (2 * TL) as i64 {
+                    tail + need_a
+                } else if rb > 0 && rb <= (2 * TL) as i64 {
+                    tail + need_b
+                } else {
+                    tail
+                };
+                if pad_at < TL as i32 {
+                    assert!(frame_len(&l, part, pad_at as usize) == TL as i32 - pad_at && frame_type(&l, part, pad_at as usize) == 0, "C02: exactly one padding frame fills the remainder of the term");
+                }
+                // whoever was accepted has an intact frame where its position says
+                if ra > 0 {
+                    let (p, off) = if ra <= (2 * TL) as i64 { (part, ra - TL as i64 - need_a as i64) } else { (next, ra - 2 * TL as i64 - need_a as i64) };
+                    assert!(off >= 0 && frame_len(&l, p, off as usize) == 32 + la && payload_eq(&l, p, off as usize, &src_a, la as usize), "C02: A's accepted message is intact at the position reported");
+                }
+                if rb > 0 {
+                    let (p, off) = if rb <= (2 * TL) as i64 { (part, rb - TL as i64 - need_b as i64) } else { (next, rb - 2 * TL as i64 - need_b as i64) };
+                    assert!(off >= 0 && frame_len(&l, p, off as usize) == 32 + lb && payload_eq(&l, p, off as usize, &src_b, lb as usize), "C02: B's accepted message is intact at the position reported");
+                }
+                if rb2 != -9 {
+                    assert!(rb2 > 0 || rb2 == -1, "C02: B's retry is accepted or told to retry again");
+                    if rb2 > 0 && ra > 0 {
+                        assert!(rb2 != ra, "C02: positions of different messages are distinct");
+                    }
+                }
+                assert!(l.raw_tail_of(next) >> 32 == t.wrapping_add(1) as i64, "C02: the next term's tail belongs to term id + 1");
+                kani::cover!(ra == -1, "A told to retry");
+            }
+            kani::cover!(true, "[must] instance reaches the end");
+            std::mem::forget(pa);
+            std::mem::forget(pb);
+        }
+    };
+}
+// same term, room for both
 // @verif tier=quick unwind=4 unwindset=payload_eq:34 fs=6000 timeout=1500
+preempt!(c02_same_term_b_before_a_claims, 64, 17, 20, -1, 3);
+// @verif tier=quick unwind=4 unwindset=payload_eq:34 fs=6000 timeout=1500
+preempt!(c02_same_term_b_after_a_claims, 64, 17, 20, -1, 4);
+// @verif tier=thorough unwind=4 unwindset=payload_eq:34 fs=6000 timeout=1500
+preempt!(c02_same_term_b_before_a_commits, 64, 17, 20, -1, 8);
+// @verif tier=thorough unwind=4 unwindset=payload_eq:34 fs=6000 timeout=1500
+preempt!(c02_same_term_b_before_a_reads_limit, 64, 17, 20, -1, 0);
+// B trips the term end and rotates (then retries in the new term) while A holds a stale view of the term
+// @verif tier=quick unwind=4 unwindset=payload_eq:34 fs=6000 timeout=1500
+preempt!(c02_b_rotates_before_a_claims, 448, 17, 40, 40, 3);
+// @verif tier=thorough unwind=4 unwindset=payload_eq:34 fs=6000 timeout=1500
+preempt!(c02_b_rotates_before_a_reads_tail, 448, 17, 40, 40, 2);
+// @verif tier=thorough unwind=4 unwindset=payload_eq:34 fs=6000 timeout=1500
+preempt!(c02_b_rotates_after_a_claims, 448, 17, 40, 40, 4);
+// both trip the same term end
+// @verif tier=quick unwind=4 unwindset=payload_eq:34 fs=6000 timeout=1500
+preempt!(c02_both_trip_term_end_b_first, 480, 17, 20, -1, 3);
+// @verif tier=thorough unwind=4 unwindset=payload_eq:34 fs=6000 timeout=1500
+preempt!(c02_both_trip_term_end_a_first, 480, 17, 20, -1, 4);
+
+/// Non-interference of claims: an append performs exactly one access to shared meta data - the fetch-add on the tail -
+/// and afterwards touches only bytes inside the range that fetch-add handed to it. Other publishers can therefore
+/// influence this one only through the value the fetch-add returns, which is fully symbolic here (any tail offset,
+/// including tails that already overshot the term).
+// @verif tier=quick unwind=26
 #[kani::proof]
-fn c02_two_publishers_same_term() {
-    let mut l = PubLog::new(1, 64);
-    l.set_limit(i64::MAX);
-    l.set_connected(1);
-    let pa = l.publication();
-    let pb = l.publication();
-    let mut src_a: [u8; 96] = kani::any();
-    let mut src_b: [u8; 96] = kani::any();
-    let (la, lb): (i32, i32) = (17, 20);
-    unsafe {
-        B.publication = &pb;
-        B.src = src_b.as_mut_ptr();
-        B.len1 = lb;
-        B.len2 = -1;
-        B.res1 = -9;
-        B.ran = 0;
+fn c02_append_touches_only_its_claimed_range() {
+    use super::c01::{supplier, Log, T};
+    use crate::concurrent::logbuffer::header::HeaderWriter;
+    use crate::concurrent::logbuffer::term_appender::TermAppender;
+    pretouch();
+    let slot: i32 = kani::any();
+    kani::assume((0..=10).contains(&slot));
+    let tail = slot * 32;
+    let mut l = Log::new(tail);
+    let mut src: [u8; 64] = kani::any();
+    let len: i32 = 17;
+    let hw = HeaderWriter::new(l.hdr.buf());
+    let a = TermAppender::new(l.term.buf(), l.meta.buf(), 0);
+    let term_base = l.term.0.as_ptr() as usize;
+    let meta_base = l.meta.0.as_ptr() as usize;
+    hook::begin(u32::MAX, u32::MAX, None, true);
+    let r = a.append_unfragmented_message(&hw, &AtomicBuffer::new(src.as_mut_ptr(), 64), 0, len, supplier, l.term_id);
+    let _n = hook::end();
+    std::mem::forget(r);
+    let n = hook::trace_len();
+    assert!(n >= 1 && n < hook::TR, "C02: harness: trace fits");
+    let first = hook::trace_at(0);
+    assert!(first.kind == hook::RMW && first.addr == meta_base && first.len == 8, "C02: the first shared access of an append is the atomic fetch-add on the tail counter");
+    let aligned = 64usize;
+    let mut k = 1;
+    while k < n {
+        let acc = hook::trace_at(k);
+        let in_meta = acc.addr >= meta_base && acc.addr < meta_base + 32;
+        assert!(!in_meta, "C02: after claiming, an append never touches the shared meta data again");
+        let in_term = acc.addr >= term_base && acc.addr < term_base + T;
+        if in_term {
+            let off = acc.addr - term_base;
+            let lo = tail as usize;
+            let hi = if lo + aligned <= T { lo + aligned } else { T };
+            assert!(off >= lo && off + acc.len <= hi, "C02: every term access of an append lies inside the byte range its fetch-add claimed");
+        }
+        k += 1;
     }
-    let j: u32 = kani::any();
-    kani::assume(j <= 12);
-    hook::begin(u32::MAX, j, Some(env_b), false);
-    let ra = code(pa.offer_opt(AtomicBuffer::new(src_a.as_mut_ptr(), 96), 0, la, default_reserved_value_supplier));
-    let n = hook::end();
-    let ran = unsafe { B.ran };
-    kani::assume(ran == 1); // j within A's access sequence: B really ran (j >= n means no preemption happened)
-    let rb = unsafe { B.res1 };
-    let part = l.partition();
-    let base = l.position(); // 1 * TL + 64
-    // both accepted, positions distinct and equal to their frame ends; frames disjoint, intact, gap-free
-    assert!(ra > 0 && rb > 0 && ra != rb, "C02: both offers accepted with distinct positions");
-    let a_first = ra < rb;
-    let (off_a, off_b) = if a_first { (64usize, 128usize) } else { (128usize, 64usize) };
-    assert!(ra == base - 64 + off_a as i64 + 64 && rb == base - 64 + off_b as i64 + 64, "C02: returned positions are consistent with frame placement");
-    assert!(frame_len(&l, part, off_a) == 32 + la && frame_len(&l, part, off_b) == 32 + lb, "C02: each message occupies its own committed frame");
-    assert!(payload_eq(&l, part, off_a, &src_a, la as usize) && payload_eq(&l, part, off_b, &src_b, lb as usize), "C02: both payloads intact");
-    assert!(l.raw_tail_of(part) == pack_tail(l.term_id(), 192), "C02: the tail covers exactly both frames (gap-free)");
-    assert!(frame_len(&l, part, 192) == 0 && l.active_count() == 1, "C02: nothing beyond the two frames, no rotation");
-    kani::cover!(a_first, "[must] A's frame first");
-    kani::cover!(!a_first, "[must] B's frame first");
-    kani::cover!(j == 0, "[must] preemption before A's first access");
-    std::mem::forget(pa);
-    std::mem::forget(pb);
+    kani::cover!(n > 3, "[must] a frame was written");
 }
